@@ -128,8 +128,12 @@ def _strategy(draw):
             if draw(st.booleans()):
                 volumes[rn] = draw(st.sampled_from([0.45, 0.6]))
             continue
-        if n >= 2 and draw(st.integers(0, 2)) > 0:
+        if (n >= 2 and draw(st.integers(0, 2)) > 0) or (n == 1 and draw(st.booleans())):
             pts, shape = draw(_template_coords(n))
+            if n == 1:
+                # a one-atom residue with a template of its own, written away from the origin
+                pts = [[draw(st.integers(-100, 100)) / 100.0 for _ in range(3)]]
+                shape = "single"
             templates[rn] = {"coords": pts, "shape": shape}
             build += ["[ template ]", f"resname {rn}", "[ atoms ]"]
             for at, p in zip(res["atoms"], pts):
@@ -137,6 +141,28 @@ def _strategy(draw):
             build.append("[ bonds ]")
             for i, j, _ in res["bonds"]:
                 build.append(f"{res['atoms'][i]['name']} {res['atoms'][j]['name']}")
+    if templates and draw(st.integers(0, 2)) == 0:
+        # a second residue name with the same atoms and bonds (an end group that keeps the beads of the repeat
+        # unit) and its own [ template ] entry holding the same coordinates
+        import copy
+        rn = draw(st.sampled_from(sorted(templates)))
+        twin = None
+        for mt in spec["moltypes"]:
+            for k, res in enumerate(mt["residues"]):
+                if res["resname"] == rn and draw(st.booleans()):
+                    if twin is None:
+                        twin = copy.deepcopy(res)
+                        twin["resname"] = "TW"
+                    mt["residues"][k] = twin
+        if twin is not None:
+            templates["TW"] = templates[rn]
+            build += ["[ template ]", "resname TW", "[ atoms ]"]
+            for at, p in zip(twin["atoms"], templates[rn]["coords"]):
+                build.append(f"{at['name']} {at['type']} {p[0]!r} {p[1]!r} {p[2]!r}")
+            build.append("[ bonds ]")
+            for i, j, _ in twin["bonds"]:
+                build.append(f"{twin['atoms'][i]['name']} {twin['atoms'][j]['name']}")
+            spec["twin_template"] = True
     if volumes:
         build.append("[ volumes ]")
         for rn, vol in volumes.items():
@@ -259,6 +285,8 @@ def check(spec, ctx):
                                                                  f"{tmpl[at['name']]} expected {p}")
     if user:
         ctx.label("user_template")
+    if spec.get("twin_template"):
+        ctx.label("two_template_entries_same_atoms_and_bonds")
     if spec.get("coords"):
         ctx.label("backmap_only_residues")
         if spec["coords"].get("also_atoms"):
